@@ -33,3 +33,6 @@ pub use store::*;
 pub mod store_droppable;
 
 pub use store_droppable::*;
+
+#[cfg(rs_store_verif)]
+pub mod verif;
